@@ -57,18 +57,15 @@ def histories(tier):
             for r in ((0, 0, 0), (0, 1, 0)):
                 out.append((list(S), list(r)))
         return out
-    for L in (2, 3, 4):
-        for S in itertools.product(sizes, repeat=L):
-            if L == 4 and len(set(S)) > 2:
-                continue
-            rs = [(0,) * L]
-            # one or two rejections inserted at every position
-            for pos in range(L):
-                for cnt in (1, 2):
-                    r = [0] * L
-                    r[pos] = cnt
-                    rs.append(tuple(r))
-            for r in rs:
+    for S in itertools.product(sizes, repeat=2):
+        for r in ((0, 0), (1, 0), (0, 1), (2, 0), (0, 2)):
+            out.append((list(S), list(r)))
+    for S in itertools.product(sizes, repeat=3):
+        for r in ((0, 0, 0), (1, 0, 0), (0, 1, 0), (0, 0, 1), (2, 0, 0)):
+            out.append((list(S), list(r)))
+    for S in itertools.product(sizes, repeat=4):
+        if len(set(S)) == 2 and S[0] != S[1] and S[2] != S[3]:
+            for r in ((0, 0, 0, 0), (0, 1, 0, 1)):
                 out.append((list(S), list(r)))
     return out
 
@@ -95,8 +92,9 @@ def enumerate_cases(tier, seed):
         if q < m:
             continue
         fnames = sorted(alphabets.fields(d, m, tier))
-        fn = fnames[seed % len(fnames)] if tier == "quick" else None
-        for fname in ([fn] if fn else fnames):
+        # one field per configuration (quick: chosen by VERIF_SEED; thorough: rotating with the configuration so that all fields occur)
+        rot = seed if tier == "quick" else (seed + q + len(ssm) + len(calib) + (lin == "ts1") + (init == "exact"))
+        for fname in [fnames[rot % len(fnames)]]:
             base = dict(ssm=ssm, calib=calib, lin=lin, d=d, m=m, q=q, init=init, field=fname, init_id=0, tier=tier)
             tag = f"{ssm}/{calib}/{lin}/d{d}m{m}/q{q}/{init}/{fname}"
             cases.append(dict(id="grid/" + tag, group=f"g/d{d}m{m}/q{q}/{init}/{calib}", part="grid", weight=30 * q * d, **base))
@@ -336,7 +334,9 @@ def _run_every(case):
         hist += [([0.25, 0.25, 0.25, 0.25], [0, 0, 0, 0]), ([0.5, 0.125, 0.25], [2, 0, 1])]
     for S, r in hist:
         e = np.concatenate([[0.0], np.cumsum(S)])
-        endings = {"exact": float(e[-1]), "within_eps": float(e[-1] - EPS / 2), "beyond": float(e[-2] + 0.75 * (e[-1] - e[-2]))}
+        # within_eps_below: the last step ends eps/2 *below* the final time (the driver loop used to livelock there: fixed by 94d3e79;
+        # a regression makes this worker time out, which the runner reports as a violation)
+        endings = {"exact": float(e[-1]), "within_eps": float(e[-1] - EPS / 2), "within_eps_below": float(e[-1] + EPS / 2), "beyond": float(e[-2] + 0.75 * (e[-1] - e[-2]))}
         for ename, t1 in endings.items():
             ssm = impl.SSM[case["ssm"]]()
             prior = impl.make_prior(cfg, ssm, jnp.asarray(tc), jnp.ones(d))
